@@ -98,6 +98,12 @@ ROLES = {
     ('cocls::reusable_storage_mtsafe::dealloc', 'store', 'cocls::reusable_storage_mtsafe::_busy'): ('publish', 'hands the block to the next user'),
 }
 
+# objects whose every operation is an election / state query: any operation, any order, in any function
+ANY_OBJECTS = {
+    'cocls::promise::_owner': 'election of the single resolver only; the promise object itself reaches its user through external synchronisation, and the '
+                              'payload is published by the future\'s slot, not by this pointer',
+}
+
 ROLE_NEED = {'publish': 'needs at least release', 'consume': 'needs at least acquire', 'pubcons': 'needs acq_rel or seq_cst', 'any': ''}
 
 
@@ -133,6 +139,8 @@ def check_roles(ctx, db, rid, only_functions=None, only_objects=None, floor=1):
     for f, e in sites(db, only_functions, only_objects):
         key = (f['nname'], opname(e), objname(e))
         ent = ROLES.get(key)
+        if ent is None and key[2] in ANY_OBJECTS:
+            ent = ('any', ANY_OBJECTS[key[2]])
         if ent is None:
             unclassified.append('%s %s on %s at %s' % key[:3] + (relloc(e['loc']),) if False else '%s: %s on %s at %s' % (key[0], key[1], key[2], relloc(e['loc'])))
             continue
